@@ -54,8 +54,12 @@ def build(d, lang, shape, focus, n, labels=0, prefix='t', leaf=0, heads='sym', a
     def word(dd, name, i):
         if i == leaf and 'word' in focus:
             return dd.string(name, n, al)
-        return 'w%d' % i
+        return 'w%d' % (0 if VARIANT[0] == 'dup' else i)
     attrs = {}
+    if VARIANT[0] == 'dup':
+        # every token of the sentence has the same content (a sentence such as 'the the the'): only positions tell them apart
+        for key, val in (('lemma', 'l'), ('pos', 'P'), ('entity', 'O'), ('chunk', 'I'), ('base', 'b'), ('surf', 'w0')):
+            attrs[key] = (lambda val: (lambda dd, name, i: val))(val)
     for key in focus:
         if key == 'word':
             continue
@@ -609,3 +613,9 @@ def obligations(tier):
     for name, hn in (('json', 'h_json'), ('prolog', 'h_prolog'), ('jigg_xml', 'h_jigg'), ('html', 'h_html')):
         yield Obligation('C07.%s[en,%s,punctuation categories]' % (name, shape_name(s)), hn, dict(lang='en', shape=s, focus=['word'], n=1, variant='punct'), cost=5)
     yield Obligation('C07.xml[%s,punctuation categories]' % shape_name(s), 'h_xml', dict(shape=s, focus=['word'], n=1, variant='punct'), cost=5)
+    # sentences whose tokens are content-equal
+    for fmt in ('auto', 'conll', 'deriv'):
+        yield Obligation('C07.%s[en,%s,content-equal tokens]' % (fmt, shape_name(s)), 'h_text', dict(lang='en', fmt=fmt, shape=s, focus=[], n=0, variant='dup'), cost=3)
+    for name, hn in (('json', 'h_json'), ('jigg_xml', 'h_jigg'), ('prolog', 'h_prolog')):
+        yield Obligation('C07.%s[en,%s,content-equal tokens]' % (name, shape_name(s)), hn, dict(lang='en', shape=s, focus=[], n=0, variant='dup'), cost=3)
+    yield Obligation('C07.xml[%s,content-equal tokens]' % shape_name(s), 'h_xml', dict(shape=s, focus=[], n=0, variant='dup'), cost=3)
